@@ -112,9 +112,26 @@ def quality(ev):
     return float((ev["last"].double() - ev["loss"].double()) / den), float(den)
 
 
+# TrustRegion() as documented: what an LM built without a strategy argument uses
+DOC_TR = {"radius": 1e6, "high": 0.5, "low": 1e-3, "up": 2.0, "down": 0.5, "factor": 0.5, "min": 1e-6, "max": 1e16}
+
+
+class _Doc:
+    min, max, down = DOC_TR["min"], DOC_TR["max"], DOC_TR["down"]
+
+
+class _DocSt:
+    strategy = _Doc
+
+
 def check_strategy(ck, name, st, ev, regime, wit):
     entry = f"strategy.{name}.update"
     b, a, c = ev["before"], ev["after"], ev["consts"]
+    if name == "default":
+        # judged against the documented constants of TrustRegion(), not against whatever the object reports about itself
+        name, st, entry = "TrustRegion", _DocSt, "optim.LevenbergMarquardt(strategy omitted)"
+        c = {k_: DOC_TR[k_] for k_ in ("high", "low", "up", "factor")}
+        ck.mark("strategy/default-of-LM")
     ck.count("strategy", f"{name}", key=(wit["history"], wit["call"], len(wit.get("k", ""))), nontrivial=True)
     if name == "Constant":
         ck.check(a["damping"] == b["damping"], "strategy", name, entry, "constant_damping_changed", dict(wit, before=b, after=a))
@@ -210,6 +227,15 @@ def check_lm_call(ck, opt, strat_name, spy_strat, model, data, target, events, r
             ck.violation("protocol", regime, entry, "unexpected_event_order", dict(wit, at=i, kinds=[x["kind"] for x in events]))
             return
         upd, los, stg = events[i + 1], events[i + 2], events[i + 3]
+        # the residual / Jacobian handed to the strategy are those of the linearisation point: what the correctors returned for this call
+        cor_ = sorted([x for x in events if x["kind"] == "CORRECT"], key=lambda x: x["idx"])
+        if cor_ and not wit.get("config", {}).get("weight"):
+            Rc_ = torch.cat([x["R_out"].reshape(-1) for x in cor_])
+            ck.count("protocol", regime + "/strategy-arguments", key=(wit["history"], wit["call"], i))
+            if stg["R"].numel() == Rc_.numel():
+                ck.ratio("protocol", regime, float((stg["R"].reshape(-1) - Rc_).abs().max()), 1e-12 * (1 + float(Rc_.abs().max())), entry,
+                         "strategy_called_with_a_residual_that_is_not_the_linearised_one",
+                         lambda: dict(wit, handed=stg["R"].reshape(-1).tolist()[:12], linearised=Rc_.tolist()[:12]))
         check_strategy(ck, strat_name, spy_strat, stg, regime, dict(wit, k=str(i)))
         ck.check(torch.equal(stg["last"], torch.as_tensor(last)) and torch.equal(stg["loss"], los["value"]), "protocol", regime, entry,
                  "strategy_called_with_wrong_losses", wit)
@@ -326,7 +352,7 @@ def run(ck):
     rng = ck.rng("c08")
     thorough = ck.tier == "thorough"
     nh = 160 if thorough else 6
-    templates = ["pose_log", "points", "alg_log", "mixed_so3_offset", "two_outputs", "three_params"]
+    templates = ["pose_log", "points", "alg_log", "mixed_so3_offset", "two_outputs", "three_params", "alias_output"]
     hid = 0
     # ---- random models, LM and GN
     for i in range(nh):
@@ -344,6 +370,10 @@ def run(ck):
         cfg["kernel"] = "none"
         cfg["damping"] = float(10.0 ** rng.uniform(-2, 1))
         cfg["reject"] = int(rng.integers(0, 17))
+        if i % 4 == 3:
+            # the strategy argument omitted, LM's own (Hessian-diagonal) bounds not the default ones, many rejections allowed
+            cfg["strategy"], cfg["reject"] = "default", 16
+            cfg["min"], cfg["max"] = [(1e-3, 1e32), (1e-6, 1e8), (1e-6, 1e32)][int(rng.integers(3))]
         run_history(ck, rng, (ck.shard, hid), spec, cfg, nsteps=int(rng.integers(2, 6)), wall=True)
     # ---- curved models: accepted trials of mediocre quality after rejected ones (middle branch of the strategies)
     for i in range(nh * 4):
@@ -378,6 +408,7 @@ def run(ck):
             swept += 1
     ck.note_add("fault_points_swept", swept)
     ck.mark("faults/swept", swept)
+    ck.require("strategy/default-of-LM")
     ck.require("faults/swept", "protocol/solver_raised", "increasing_trials/k=0", "increasing_trials/0<k<reject", "increasing_trials/k=reject",
                "increasing_trials/k=reject+1", "history/GN", "history/LM",
                "strategy/Adaptive/very_successful", "strategy/Adaptive/unsuccessful", "strategy/TrustRegion/very_successful",
